@@ -303,6 +303,15 @@ pub fn gen_plan(ch: &mut Choices, mode: &str, thorough: bool) -> Plan {
                 existing.push((name, b"sibling data\n".to_vec(), true));
             }
         }
+        if ch.chance(1, 4) {
+            // strangers framed like members (`prefix.` ... `.ext`) whose middle part is valid UTF-8 but not ASCII, at
+            // lengths and alignments that put multi-byte characters at every offset a parser might cut at
+            for (lead, ch2, n) in [("", "é", 23usize), ("x", "é", 15), ("notes-2024-05-27-r", "é", 3), ("", "日", 9), ("ab", "日", 7), ("2024-05-27.0000000", "é", 6)] {
+                let middle: String = format!("{lead}{}", ch2.repeat(n));
+                existing.push((format!("{}.{}-v2.{}", cfg.prefix, middle, cfg.ext), b"stranger with a non-ASCII name\n".to_vec(), true));
+                existing.push((format!("{}.{}.{}", cfg.prefix, middle, cfg.ext), b"stranger with a non-ASCII name\n".to_vec(), true));
+            }
+        }
         if ch.chance(1, 2) {
             existing.push((format!("{}.{}", cfg.prefix, cfg.ext), b"plain file\n".to_vec(), true));
             existing.push((format!("{}-notes.{}", cfg.prefix, cfg.ext), b"notes\n".to_vec(), true));
